@@ -1,23 +1,31 @@
 //@file nervusdb-storage/src/index/ordered_key.rs
 //@crate nervusdb-storage
+//@covers nervusdb-storage/src/index/ordered_key.rs::encode_ordered_value
+//@covers nervusdb-storage/src/index/ordered_key.rs::encode_index_key
+//@trusted Vec/slice comparison (`<`, `==` on [u8]) is std's lexicographic order, as compiled by Kani (memcmp model)
 // Kani harnesses for C27 (index key encoding preserves order and equality).
 // Appended verbatim, under cfg(kani), to the end of the real ordered_key.rs of a
-// scratch copy of /repo; `super::*` is the real module.
+// scratch copy of /repo's working tree; `super::*` is the real module.
+//
+//@harness c27_int_pair complete "all pairs of i64: order, equality, length, prefix-freedom"
+//@harness c27_datetime_pair complete "all pairs of i64 datetimes"
+//@harness c27_bool_null complete "all bools, null"
+//@harness c27_float_pair complete "all pairs of non-NaN f64 bit patterns (both zeros, infinities, subnormals)"
+//@harness c27_fixed_cross_kind complete "all pairs of fixed-width kinds, symbolic payloads: never a proper prefix, tag order"
+//@harness c27_index_key_int complete "encode_index_key orders by (index id, value, node id) for all u32 x i64 x u64 pairs"
+//@harness c27_str_pair_b2 bounded(len<=2) tier=thorough "pairs of byte strings of length <= 2 (witness generator for the unbounded Verus obligations)"
+//@harness c27_blob_pair_b2 bounded(len<=2) tier=thorough "pairs of blobs of length <= 2 (witness generator)"
 #[cfg(kani)]
 mod verif_kani_c27 {
     use super::*;
 
-    fn lex_lt(a: &[u8], b: &[u8]) -> bool {
-        a < b
-    }
     fn proper_prefix(a: &[u8], b: &[u8]) -> bool {
         a.len() < b.len() && b[..a.len()] == *a
     }
 
-    //@harness c27_int_order_eq complete "all pairs of i64"
     #[kani::proof]
     #[kani::unwind(11)]
-    fn c27_int_order_eq() {
+    fn c27_int_pair() {
         let a: i64 = kani::any();
         let b: i64 = kani::any();
         let ea = encode_ordered_value(&PropertyValue::Int(a));
@@ -25,8 +33,163 @@ mod verif_kani_c27 {
         kani::cover!(a < b, "reach: a<b");
         kani::cover!(a == b, "reach: a==b");
         assert!(ea.len() == 9 && eb.len() == 9, "C27.okey.int.len9");
-        assert!(!(a < b) || lex_lt(&ea, &eb), "C27.okey.int.order");
+        assert!(!(a < b) || ea < eb, "C27.okey.int.order");
         assert!((a == b) == (ea == eb), "C27.okey.int.eq_iff");
         assert!(!proper_prefix(&ea, &eb), "C27.okey.int.prefix_free");
+    }
+
+    #[kani::proof]
+    #[kani::unwind(11)]
+    fn c27_datetime_pair() {
+        let a: i64 = kani::any();
+        let b: i64 = kani::any();
+        let ea = encode_ordered_value(&PropertyValue::DateTime(a));
+        let eb = encode_ordered_value(&PropertyValue::DateTime(b));
+        kani::cover!(a < b, "reach: a<b");
+        assert!(ea.len() == 9 && eb.len() == 9, "C27.okey.datetime.len9");
+        assert!(!(a < b) || ea < eb, "C27.okey.datetime.order");
+        assert!((a == b) == (ea == eb), "C27.okey.datetime.eq_iff");
+    }
+
+    #[kani::proof]
+    #[kani::unwind(4)]
+    fn c27_bool_null() {
+        let a: bool = kani::any();
+        let b: bool = kani::any();
+        let ea = encode_ordered_value(&PropertyValue::Bool(a));
+        let eb = encode_ordered_value(&PropertyValue::Bool(b));
+        let n = encode_ordered_value(&PropertyValue::Null);
+        kani::cover!(!a && b, "reach: false<true");
+        assert!(!(!a & b) || ea < eb, "C27.okey.bool.order");
+        assert!((a == b) == (ea == eb), "C27.okey.bool.eq_iff");
+        assert!(ea.len() == 2 && n.len() == 1, "C27.okey.bool.len");
+        assert!(!proper_prefix(&n, &ea) && !proper_prefix(&ea, &n), "C27.okey.null.prefix_free");
+    }
+
+    #[kani::proof]
+    #[kani::unwind(11)]
+    fn c27_float_pair() {
+        let a: f64 = kani::any();
+        let b: f64 = kani::any();
+        kani::assume(!a.is_nan() && !b.is_nan());
+        let ea = encode_ordered_value(&PropertyValue::Float(a));
+        let eb = encode_ordered_value(&PropertyValue::Float(b));
+        kani::cover!(a < b, "reach: a<b");
+        kani::cover!(a == b && a.to_bits() != b.to_bits(), "reach: +0.0 vs -0.0");
+        kani::cover!(a.is_infinite() && b.is_finite(), "reach: infinities");
+        assert!(ea.len() == 9 && eb.len() == 9, "C27.okey.float.len9");
+        assert!(!(a < b) || ea < eb, "C27.okey.float.order");
+        assert!((a == b) == (ea == eb), "C27.okey.float.eq_iff");
+    }
+
+    fn fixed(kind: u8, payload: u64) -> PropertyValue {
+        match kind {
+            0 => PropertyValue::Null,
+            1 => PropertyValue::Bool(payload & 1 == 1),
+            2 => PropertyValue::Int(payload as i64),
+            3 => PropertyValue::Float(f64::from_bits(payload)),
+            _ => PropertyValue::DateTime(payload as i64),
+        }
+    }
+
+    #[kani::proof]
+    #[kani::unwind(11)]
+    fn c27_fixed_cross_kind() {
+        let pa: u64 = kani::any();
+        let pb: u64 = kani::any();
+        // kinds enumerated concretely (symbolic enum tags are a CBMC cost cliff), payloads symbolic
+        let mut ka = 0u8;
+        while ka < 5 {
+            let mut kb = 0u8;
+            while kb < 5 {
+                let ea = encode_ordered_value(&fixed(ka, pa));
+                let eb = encode_ordered_value(&fixed(kb, pb));
+                assert!(!proper_prefix(&ea, &eb), "C27.okey.cross_kind.prefix_free");
+                if ka != kb {
+                    assert!(ea != eb, "C27.okey.cross_kind.distinct");
+                }
+                kb += 1;
+            }
+            ka += 1;
+        }
+        kani::cover!(true, "reach: end");
+    }
+
+    #[kani::proof]
+    #[kani::unwind(22)]
+    fn c27_index_key_int() {
+        let (i1, i2): (u32, u32) = (kani::any(), kani::any());
+        let (v1, v2): (i64, i64) = (kani::any(), kani::any());
+        let (n1, n2): (u64, u64) = (kani::any(), kani::any());
+        let k1 = encode_index_key(i1, &PropertyValue::Int(v1), n1);
+        let k2 = encode_index_key(i2, &PropertyValue::Int(v2), n2);
+        kani::cover!(i1 == i2 && v1 == v2 && n1 < n2, "reach: tie broken by node id");
+        assert!(((i1, v1, n1) < (i2, v2, n2)) == (k1 < k2), "C27.okey.index_key.order");
+        assert!(((i1, v1, n1) == (i2, v2, n2)) == (k1 == k2), "C27.okey.index_key.eq_iff");
+    }
+
+    fn bytes_n(len: usize, x: [u8; 2]) -> Vec<u8> {
+        // `len` is always a concrete value here (symbolic Vec lengths are a CBMC cost cliff)
+        let mut v = Vec::with_capacity(2);
+        let mut i = 0;
+        while i < len {
+            v.push(x[i]);
+            i += 1;
+        }
+        v
+    }
+
+    #[kani::proof]
+    #[kani::unwind(8)]
+    fn c27_blob_pair_b2() {
+        let xa: [u8; 2] = kani::any();
+        let xb: [u8; 2] = kani::any();
+        let mut la = 0usize;
+        while la <= 2 {
+            let mut lb = 0usize;
+            while lb <= 2 {
+                let a = bytes_n(la, xa);
+                let b = bytes_n(lb, xb);
+                let lt = a < b;
+                let eq = a == b;
+                let ea = encode_ordered_value(&PropertyValue::Blob(a));
+                let eb = encode_ordered_value(&PropertyValue::Blob(b));
+                assert!(!lt || ea < eb, "C27.okey.blob.order.b2");
+                assert!(eq == (ea == eb), "C27.okey.blob.eq_iff.b2");
+                assert!(!proper_prefix(&ea, &eb), "C27.okey.blob.prefix_free.b2");
+                lb += 1;
+            }
+            la += 1;
+        }
+        kani::cover!(xa[0] == 0 && xb[0] == 0 && xa[1] < xb[1], "reach: embedded zero bytes");
+    }
+
+    #[kani::proof]
+    #[kani::unwind(8)]
+    fn c27_str_pair_b2() {
+        // ASCII (< 0x80) bytes only, so that any byte vector is valid UTF-8; includes 0x00
+        let xa: [u8; 2] = kani::any();
+        let xb: [u8; 2] = kani::any();
+        kani::assume(xa[0] < 0x80 && xa[1] < 0x80 && xb[0] < 0x80 && xb[1] < 0x80);
+        let mut la = 0usize;
+        while la <= 2 {
+            let mut lb = 0usize;
+            while lb <= 2 {
+                let a = bytes_n(la, xa);
+                let b = bytes_n(lb, xb);
+                let lt = a < b;
+                let eq = a == b;
+                let sa = unsafe { String::from_utf8_unchecked(a) };
+                let sb = unsafe { String::from_utf8_unchecked(b) };
+                let ea = encode_ordered_value(&PropertyValue::String(sa));
+                let eb = encode_ordered_value(&PropertyValue::String(sb));
+                assert!(!lt || ea < eb, "C27.okey.str.order.b2");
+                assert!(eq == (ea == eb), "C27.okey.str.eq_iff.b2");
+                assert!(!proper_prefix(&ea, &eb), "C27.okey.str.prefix_free.b2");
+                lb += 1;
+            }
+            la += 1;
+        }
+        kani::cover!(xa[0] == 0 && xb[0] == 0 && xa[1] < xb[1], "reach: embedded zero bytes");
     }
 }
